@@ -152,6 +152,74 @@ def end_to_end(v, vec, tier, rnd):
     return n
 
 
+def child_cfg(p):
+    tr = p['transforms']
+    return {'proto': 'esp' if p['proto'] == 3 else 'ah', 'child_encr': [ENC_NAME[(t['id'], t['keylen'])] for t in tr if t['type'] == 1] or ['aes256'],
+            'child_integ': [INTEG_NAME[t['id']] for t in tr if t['type'] == 3], 'child_dh': [DH_NAME[t['id']] for t in tr if t['type'] == 4]}
+
+
+def child_end_to_end(v, vec, tier, rnd):
+    """CHILD_SA policies end to end: the first CHILD_SA comes with IKE_AUTH (negotiated without the DH transforms), every further one with
+    CREATE_CHILD_SA against the FULL configured policy - twice in a row, the second time started by the other side: what an earlier negotiation
+    did must not change what the configured policy offers or accepts."""
+    table = {}
+    for c in vec['select']:
+        if c['mine']['proto'] in (2, 3) and len(c['sa']) == 1:
+            table[(json.dumps(aset_ordered(c['mine'])), json.dumps(aset_ordered(c['sa'][0])))] = c['out']
+    expressible = lambda p: all((t['id'], t['keylen']) in ENC_NAME for t in p['transforms'] if t['type'] == 1) and all(t['id'] in INTEG_NAME for t in p['transforms'] if t['type'] == 3) \
+        and all(t['id'] in DH_NAME for t in p['transforms'] if t['type'] == 4) and any(t['type'] == 5 for t in p['transforms']) \
+        and (p['proto'] == 2) == (not any(t['type'] == 1 for t in p['transforms']))
+    locals_ = {json.dumps(aset_ordered(c['mine'])): c['mine'] for c in vec['select'] if c['mine']['proto'] in (2, 3)}
+    peers = {json.dumps(aset_ordered(c['sa'][0])): c['sa'][0] for c in vec['select'] if c['mine']['proto'] in (2, 3) and len(c['sa']) == 1 and expressible(c['sa'][0])}
+    pairs = [(a, b) for a in peers for b in locals_ if (b, a) in table and peers[a]['proto'] == locals_[b]['proto']]
+    with_dh = [x for x in pairs if any(t['type'] == 4 for t in peers[x[0]]['transforms']) and any(t['type'] == 4 for t in locals_[x[1]]['transforms'])]
+    pairs = rnd.sample(with_dh, min(len(with_dh), 25 if tier == 'quick' else 400)) + rnd.sample(pairs, min(len(pairs), 25 if tier == 'quick' else 1200))
+    n = 0
+    for a_key, b_key in pairs:
+        want = table[(b_key, a_key)]
+        w = wd.World(opts_by_ep={'A': child_cfg(peers[a_key]), 'B': child_cfg(locals_[b_key])}, seed=common.SEED)
+        try:
+            w.establish('A')
+            if [s.state.name for s in w.sas('A')] != ['ESTABLISHED'] or [s.state.name for s in w.sas('B')] != ['ESTABLISHED']:
+                continue
+            for round_, starter in enumerate(('A', 'A')):
+                req = w.acquire(starter, sport=0, dport=0)
+                if req is None:
+                    break
+                res = w.dispatch('B', req, 'A')
+                b = w.sas('B')[0]
+                m = W.dec_message(bytes(res), probes.keys_of(b.my_crypto))
+                n += 1
+                sa = next((p for p in m['inner'] if p['t'] == W.SA), None)
+                notifies = [W.notify_name(p['ntype']) for p in m['inner'] if p['t'] == W.NOTIFY and p['ntype'] < 16384]
+                got = sorted((t['type'], t['id'], t['keylen'] or 0) for t in sa['proposals'][0]['transforms']) if sa else None
+                has_ke = any(p['t'] == W.KE for p in m['inner'])
+                what = f'CREATE_CHILD_SA no. {round_ + 1} after IKE_AUTH'
+                if want == []:
+                    if sa is not None or 'NO_PROPOSAL_CHOSEN' not in notifies:
+                        v.violation(f'{what}: no common suite, but the request is not refused with NO_PROPOSAL_CHOSEN', {'A': child_cfg(peers[a_key]), 'B': child_cfg(locals_[b_key]), 'got': got},
+                                    signature={'component': 'child-e2e:refuse'})
+                    w.dispatch('A', res, 'B')
+                    continue
+                if 'INVALID_KE_PAYLOAD' in notifies:
+                    w.dispatch('A', res, 'B')
+                    break
+                if got != aset(want) or has_ke != any(t['type'] == 4 for t in want['transforms']):
+                    v.violation(f'{what}: the chosen CHILD_SA suite differs from the specification (configured policy vs offer)',
+                                {'A': child_cfg(peers[a_key]), 'B': child_cfg(locals_[b_key]), 'got': got, 'want': aset(want), 'ke_payload': has_ke},
+                                signature={'component': 'child-e2e:choice', 'round': round_})
+                    break
+                nxt, cur = w.dispatch('A', res, 'B'), 'A'
+                while nxt is not None:
+                    cur = w.peer_of(cur)
+                    nxt = w.dispatch(cur, nxt, w.peer_of(cur))
+        except wd.Escape as ex:
+            v.violation(f'child negotiation raised: {ex}', {}, signature={'component': 'child-e2e:escape'})
+        finally:
+            w.close()
+    return n
+
+
 def aset_ordered(p):
     return [p['proto']] + [(t['type'], t['id'], t['keylen']) for t in p['transforms']]
 
@@ -294,9 +362,10 @@ def run(tier, replay=None):
     n_fun, n_cls = function_level(v, vec, tier, rnd)
     n_e2e = end_to_end(v, vec, tier, rnd)
     n_scr = scripted_peer(v)
+    n_child = child_end_to_end(v, vec, tier, rnd)
     n_retry = retry_vectors(v, vec)
     sample = vec['select'][0]
-    v.coverage.update({'evaluations': n_fun + n_e2e + n_scr + n_retry, 'retry_suggestions': n_retry, 'distinct_nontrivial': n_fun, 'spec_cases': len(vec['select']),
+    v.coverage.update({'evaluations': n_fun + n_e2e + n_scr + n_retry + n_child, 'child_end_to_end': n_child, 'retry_suggestions': n_retry, 'distinct_nontrivial': n_fun, 'spec_cases': len(vec['select']),
                        'function_level': n_fun, 'classes': n_cls, 'end_to_end_pairs': n_e2e, 'scripted_peer_cases': n_scr,
                        'rule': 'Negotiate.tla universe: IKE local policies (ordered ENCR key lengths, INTEG, DH lists) x peer SA payloads with one or two proposals '
                                'incl. foreign / missing / key-length-mismatching transforms; ESP / AH child policies likewise; property ChoiceOk checked by TLC on '
